@@ -15,7 +15,7 @@
    [sched] = the chunk sizes io.BufferedWriter(7) offers to the raw stream (any valid schedule). *)
 From Coq Require Import ZArith List Bool Lia.
 From CV Require Import Base.Val Base.Bytes Base.Tys Gen.Tables Model.Codec Model.SdoClient Model.SdoServer Model.SdoLink
-  Proofs.Codec_proofs Proofs.SdoLink_proofs.
+  Proofs.Codec_proofs Proofs.SdoLink_proofs Gen.SrcC01 Proofs.Src_eq_c01.
 Import ListNotations.
 Open Scope Z_scope.
 
@@ -128,6 +128,54 @@ Example C03_nv_roundtrip :
      [(1413, [1]); (385, [9]); (1414, [2]); (1413, [3]); (1792, [5])] = [(1413, [[1]; [3]]); (1414, [[2]])].
 Proof. vm_compute. repeat split; reflexivity. Qed.
 
+(* ---- Tie (c): source text -> model.  Gen/SrcC01.v is regenerated from the text of canopen/sdo/client.py on every run
+   (tools/tables/src_c01.py): WritableStream.__init__ / write / close and ReadableStream.__init__ / read as state
+   skeletons (which branch, byte 0 of the request, payload bytes copied, _toggle / _done / _error / pos / size
+   afterwards, which exception).  The *_from_src functions (Proofs/Src_eq_c01.v) are the model functions rebuilt around
+   those skeletons: the only decisions left outside the translated text are struct packing, the request/response
+   exchange and slicing.  The client half of the composition the theorems above speak about IS what the current source text says. ---- *)
+Theorem C03_src_ws_init : forall (S : Type) (peer : S -> list Z -> S * list (list Z)) (w : world) idx sub size force,
+  ws_init peer w idx sub size force = ws_init_from_src peer w idx sub size force.
+Proof. exact @src_ws_init_eq. Qed.
+
+Theorem C03_src_ws_write : forall (S : Type) (peer : S -> list Z -> S * list (list Z)) (w : world) st b,
+  ws_write peer w st b = ws_write_from_src peer w st b.
+Proof. exact @src_ws_write_eq. Qed.
+
+Theorem C03_src_ws_close : forall (S : Type) (peer : S -> list Z -> S * list (list Z)) (w : world) st,
+  ws_close peer w st = ws_close_from_src peer w st.
+Proof. exact @src_ws_close_eq. Qed.
+
+Theorem C03_src_rs_init : forall (S : Type) (peer : S -> list Z -> S * list (list Z)) (w : world) idx sub,
+  rs_init peer w idx sub = rs_init_from_src peer w idx sub.
+Proof. exact @src_rs_init_eq. Qed.
+
+Theorem C03_src_rs_read : forall (S : Type) (peer : S -> list Z -> S * list (list Z)) (f : nat) (w : world) st size,
+  0 <= size ->
+  rs_read peer (Datatypes.S f) w st = rs_read_from_src peer (rs_read peer f) w st size.
+Proof. exact @src_rs_read_eq. Qed.
+
+(* non-vacuity of the tie: the skeletons on concrete states.  A 10-byte download of declared size: initiate byte 0x21;
+   second segment (3 bytes at pos 7, toggle 0x10) has byte 0 = 0x10 | (7-3)<<1 | 1 = 0x19 and completes the stream;
+   close() of an unfinished stream of unknown size sends 0x0F | toggle; an expedited upload response 0x4B (e, s, n=2)
+   gives size 2; a final 2-byte upload segment 0x1B with toggle 0x10. *)
+(* the exchange itself: which frame is awaited, when the queue is replaced, that ONE request is sent, and that a missing
+   response is answered by the abort frame [0x80, 0, 0, 0, code little-endian] with the code in the source text (0x05040000)
+   after MAX_RETRIES (regenerated: SDO_MAX_RETRIES) attempts *)
+Theorem C03_src_request_response : forall (S : Type) (peer : S -> list Z -> S * list (list Z)) (w : world) req,
+  request_response peer w req = request_response_from_src peer w req.
+Proof. exact @src_request_response_eq. Qed.
+
+Theorem C03_src_read_response : forall (S : Type) (w : @world S), read_response w = read_response_from_src w.
+Proof. exact @src_read_response_eq. Qed.
+
+Theorem C03_src_abort_frame : forall code, SdoClient.abort_frame code = abort_frame_from_src code.
+Proof. exact src_abort_eq. Qed.
+
+Theorem C03_src_upload_truncation : forall odt response_size data,
+  truncate odt response_size data = truncate_from_src odt response_size data.
+Proof. exact src_upload_eq. Qed.
+
 Print Assumptions C03_typed_roundtrip.
 Print Assumptions C03_bool_roundtrip.
 Print Assumptions C03_real_roundtrip.
@@ -138,3 +186,12 @@ Print Assumptions C03_registered_reachable.
 Print Assumptions C03_channel_isolation.
 Print Assumptions C03_other_traffic_invisible.
 Print Assumptions C03_interleaving.
+Print Assumptions C03_src_ws_init.
+Print Assumptions C03_src_ws_write.
+Print Assumptions C03_src_ws_close.
+Print Assumptions C03_src_rs_init.
+Print Assumptions C03_src_rs_read.
+Print Assumptions C03_src_upload_truncation.
+Print Assumptions C03_src_request_response.
+Print Assumptions C03_src_read_response.
+Print Assumptions C03_src_abort_frame.
